@@ -128,7 +128,7 @@ elif mode == 'fds':
                         'stdio_open': all(not s.closed for s in (sys.stdin, sys.stdout, sys.stderr))})
     finally:
         shutil.rmtree(d, ignore_errors=True)
-print(json.dumps(out))
+print(json.dumps(out, default=repr))
 '''
 
 
